@@ -21,6 +21,7 @@ func init() {
 			"ERR-LOOP ReadStepResponse checks Err() after draining, on the instant path too; PV-NUM no raw sum of squares",
 			"LP-PIPE entryIterator.Next: a record that was read reaches the prefilter before the next is read; the record body is a copy of the frame buffer",
 			"PV-PURE Aggregate(points) writes nothing into its receiver; eviction runs on every path that reports a step",
+			"PV-ROLE batchApplier returns agg.Result(); PV-GUARD range/vector iterators end only on the stepper's / source's verdict",
 		},
 		NotDecided: []string{"numeric results of the aggregators (Welford, quantile interpolation)", "that the storage delivers samples in time order", "equality instant = range at T beyond the shared code path"},
 		Rules: func(r *Run) {
@@ -46,6 +47,8 @@ func init() {
 			ruleLPPipe(r) // every record the storage returns for the window reaches the sampler unless a filter rejects it
 			ruleDaemonLog(r)
 			ruleBatchAggregatorsStateless(r)
+			ruleBatchApplierAlwaysAggregates(r)
+			ruleIterEndsWithSource(r)
 		},
 	})
 }
